@@ -17,7 +17,7 @@ FORBIDDEN = re.compile(r"\bsorry\b|\badmit\b|^\s*axiom\s|native_decide|bv_decide
 def _sources():
     out = []
     for root, _, files in os.walk(LEAN):
-        if ".lake" in root:
+        if ".lake" in root or os.sep + "wip" in root:
             continue
         for f in sorted(files):
             if f.endswith(".lean") or f in ("lakefile.toml", "theorems.json"):
